@@ -711,7 +711,12 @@ def compare_program(c, io, mo):
             if not ans.startswith("ok "):
                 return f"step {i} (query): impl returned a slice, model says {ans[:60]}"
             f = ans[3:].split(" ")
-            if not (vclose(st["query"][0], parse_rats(f[0])) and vclose(st["query"][1], parse_rats(f[1]))):
+            # relative to the magnitude of the series the slice was taken from (a one-sample slice whose value is 0 in
+            # exact arithmetic carries the rounding of its neighbours)
+            cur = next((s_["state"] for s_ in reversed(steps[:i]) if "state" in s_), None)
+            refx = [v for v in (cur["x"] if cur else []) if v is not None and math.isfinite(v)]
+            refy = [v for v in (cur["y"] if cur else []) if v is not None and math.isfinite(v)]
+            if not (vclose(st["query"][0], parse_rats(f[0]), ref=refx) and vclose(st["query"][1], parse_rats(f[1]), ref=refy)):
                 return f"step {i} (query): slices differ: impl {st['query'][0][:5]} model {f[0][:40]}"
             continue
         if st.get("fail") and st.get("raised") is None:
